@@ -1299,9 +1299,17 @@ def _ze_children(ex, e, args, kwargs, node):
 def _pool_id(ex, p, args, kwargs, node):
     ZX = _zx()
     (e,) = args
+    if isinstance(e, VInt):
+        # the id of an integer object (a conditional's key used as the name of a helper variable): positive,
+        # the same for the same key; ids of keys and ids of syntax trees are different objects' ids
+        ex.st.assume(pid_key(e.t) >= 1)
+        return VInt(pid_key(e.t))
     if not isinstance(e, ZX.VZE):
         raise Unsupported("IDPool.id of a value that is not a z3 syntax tree")
     return VInt(ZX.pid(e.t))
+
+
+pid_key = z3.Function("pid_key", L.Int, L.Int)
 
 
 @fn("z3.Tactic", "z3.z3.Tactic", tb="TB-tac")
